@@ -762,6 +762,17 @@ func (s *BaseNodeService) processMessage(message storage.Message) (*types.Operat
 		return nil, fmt.Errorf("failed to get FSMRequestFromMessage:  %w", err)
 	}
 
+	// a participant can speak only for itself: the participant id of the request must belong to the sender of the message
+	if participantID, ok := participantIDFromRequest(fsmReq); ok {
+		senderID, err := fsmInstance.GetIDByUsername(message.SenderAddr)
+		if err != nil {
+			return nil, fmt.Errorf("failed to GetIDByUsername: %w", err)
+		}
+		if senderID != participantID {
+			return nil, fmt.Errorf("participant id %d does not belong to the sender %s", participantID, message.SenderAddr)
+		}
+	}
+
 	resp, fsmDump, err := fsmInstance.Do(fsm.Event(message.Event), fsmReq)
 	if err != nil {
 		return nil, fmt.Errorf("failed to Do operation in FSM: %w", err)
@@ -865,6 +876,31 @@ func (s *BaseNodeService) processMessage(message storage.Message) (*types.Operat
 	}
 
 	return operation, nil
+}
+
+// participantIDFromRequest returns the participant id an FSM request is made for
+func participantIDFromRequest(fsmReq interface{}) (int, bool) {
+	switch req := fsmReq.(type) {
+	case requests.SignatureProposalParticipantRequest:
+		return req.ParticipantId, true
+	case requests.DKGProposalCommitConfirmationRequest:
+		return req.ParticipantId, true
+	case requests.DKGProposalDealConfirmationRequest:
+		return req.ParticipantId, true
+	case requests.DKGProposalResponseConfirmationRequest:
+		return req.ParticipantId, true
+	case requests.DKGProposalMasterKeyConfirmationRequest:
+		return req.ParticipantId, true
+	case requests.DKGProposalConfirmationErrorRequest:
+		return req.ParticipantId, true
+	case requests.SignatureProposalConfirmationErrorRequest:
+		return req.ParticipantId, true
+	case requests.SigningBatchProposalStartRequest:
+		return req.ParticipantId, true
+	case requests.SigningProposalBatchPartialSignRequests:
+		return req.ParticipantId, true
+	}
+	return 0, false
 }
 
 func (s *BaseNodeService) broadcastReconstructedSignatures(message storage.Message, sigs []fsmtypes.ReconstructedSignature) error {
